@@ -951,13 +951,6 @@ func opReferenceChangeJournal(ctx context.Context, pc *uint64, interpreter *EVMI
 		return length.Uint64(), nil
 	}
 
-	unmask := func(rawData []byte, length uint64) []byte {
-		data := new(uint256.Int).SetBytes(rawData)
-		mask := new(uint256.Int).Add(storageMask, zero)
-		ret := data.And(data, mask.Not(mask)).Bytes()
-		return ret[:]
-	}
-
 	u64Ceiling := func(nom, denom uint64) uint64 {
 		return (nom + denom - 1) / denom
 	}
@@ -988,8 +981,8 @@ func opReferenceChangeJournal(ctx context.Context, pc *uint64, interpreter *EVMI
 
 	var stateBytes []byte
 	if length < 32 {
-		stateBytes = unmask(rawState[:], length)
-		stateBytes = stateBytes[:length]
+		// in-place encoding: the content occupies the high-order bytes of the slot, leading zero bytes included
+		stateBytes = common.CopyBytes(rawState[:length])
 	} else {
 		referenceSlot := new(uint256.Int).SetBytes(keccak(interpreter, storageSlot.Bytes()))
 		for i := uint64(0); i < u64Ceiling(length, 32); i++ {
